@@ -31,3 +31,7 @@ cd /repo && git apply $D/patch.diff || { echo "patch does not apply to /repo"; e
 for c in "$@"; do (cd /verif && timeout 900 ./check $c 2>&1 | grep -E "VIOLATION|^OK|KNOWN" | head -3); done
 git -C /repo checkout -- . && git -C /repo status --short | head -3
 echo "== done $name"
+# NOTE: the checks above rewrote /verif/evidence/<id>.json with a VIOLATION record of the patched tree.
+# Re-run every check listed on the command line on the clean tree before committing evidence:
+echo "== regenerating evidence on the clean tree: $*"
+for c in "$@"; do (cd /verif && timeout 900 ./check $c 2>&1 | grep -E "VIOLATION|^OK" | head -2); done
